@@ -29,6 +29,8 @@ pub struct BCase {
     pub xref_stream: bool,
     /// object numbers handed out by new_object_id() before the outline is built and filled in only afterwards
     pub reserved: u8,
+    /// how page object numbers relate to page order: 0 ascending, 1 descending, 2 rotated by one
+    pub id_order: u8,
 }
 
 fn k(s: &str) -> Vec<u8> {
@@ -101,7 +103,8 @@ pub fn gen_case(r: &mut Rng) -> BCase {
     }
     let xref_stream = r.bool();
     let reserved = if r.chance(1, 3) { 1 + r.below(3) as u8 } else { 0 };
-    BCase { n_pages, nodes, xref_stream, reserved }
+    let id_order = if r.chance(1, 3) { 1 + r.below(2) as u8 } else { 0 };
+    BCase { n_pages, nodes, xref_stream, reserved, id_order }
 }
 
 struct Built {
@@ -119,7 +122,12 @@ fn build(c: &BCase) -> Built {
     let mut kids = vec![];
     let mut pages = vec![];
     for i in 0..c.n_pages {
-        let id = (10 + 2 * i as u32, 0u16);
+        let slot = match c.id_order {
+            1 => c.n_pages - 1 - i,
+            2 => (i + 1) % c.n_pages,
+            _ => i,
+        };
+        let id = (10 + 2 * slot as u32, 0u16);
         d.objects.insert(id, RObj::Dict(vec![(k("Type"), name("Page")), (k("Parent"), RObj::Ref(2, 0))]));
         kids.push(RObj::Ref(id.0, 0));
         pages.push(id);
@@ -334,7 +342,7 @@ pub fn run_case(c: &BCase) -> Option<(String, String)> {
 }
 
 fn case_json(c: &BCase) -> Value {
-    json!({"kind":"forest","n_pages":c.n_pages,"xref_stream":c.xref_stream,"reserved":c.reserved,"nodes":c.nodes.iter().map(|n| json!({"title_utf16":n.title.encode_utf16().collect::<Vec<u16>>(),"title":n.title,"page":n.page,"parent":n.parent})).collect::<Vec<_>>()})
+    json!({"kind":"forest","n_pages":c.n_pages,"xref_stream":c.xref_stream,"reserved":c.reserved,"id_order":c.id_order,"nodes":c.nodes.iter().map(|n| json!({"title_utf16":n.title.encode_utf16().collect::<Vec<u16>>(),"title":n.title,"page":n.page,"parent":n.parent})).collect::<Vec<_>>()})
 }
 
 pub fn run(cfg: &RunCfg) -> (PropMeta, ShardOut, Map<String, Value>) {
@@ -365,7 +373,7 @@ pub fn run(cfg: &RunCfg) -> (PropMeta, ShardOut, Map<String, Value>) {
     });
     let meta = PropMeta {
         level: "exploration",
-        rule: "random bookmark forests (1..60 bookmarks with random or chain-like parent choice; one forest in sixteen a chain of 50..257 bookmarks, i.e. nesting up to the deepest level the outline walker follows; children attached in any order, distinct titles drawn from ASCII / BMP / astral / whole Unicode range incl. the empty title, any target page, zero-page parents, in a third of the cases 1-3 object numbers reserved with new_object_id() before and filled in after build_outline) over documents with 1..12 pages and both xref formats; pipeline add_bookmark -> adjust_zero_pages -> build_outline -> catalog /Outlines -> get_toc, and again after save_to + load_mem. Oracle: forest model (fresh ids, First/Last/Next/Prev/Parent lists in insertion order, decoded titles, destination pages with the documented zero-page fix-up, pre-order (title, level, page number)). distinct = distinct forests with more than one bookmark.".into(),
+        rule: "random bookmark forests (1..60 bookmarks with random or chain-like parent choice; one forest in sixteen a chain of 50..257 bookmarks, i.e. nesting up to the deepest level the outline walker follows; children attached in any order, distinct titles drawn from ASCII / BMP / astral / whole Unicode range incl. the empty title, any target page, zero-page parents, in a third of the cases 1-3 object numbers reserved with new_object_id() before and filled in after build_outline) over documents with 1..12 pages (page object numbers ascending, descending or rotated against page order) and both xref formats; pipeline add_bookmark -> adjust_zero_pages -> build_outline -> catalog /Outlines -> get_toc, and again after save_to + load_mem. Oracle: forest model (fresh ids, First/Last/Next/Prev/Parent lists in insertion order, decoded titles, destination pages with the documented zero-page fix-up, pre-order (title, level, page number)). distinct = distinct forests with more than one bookmark.".into(),
         assumptions: vec!["titles are pairwise distinct (get_toc keys entries by title, as the quantifier states)".into(), "leaf bookmarks always name a real page; only parents may be zero-page".into(), "forests nest at most 257 levels, the deepest the outline walker follows (its recursion bound); deeper items are cut off by design".into()],
         exhaustive: false,
         min_distinct: 500,
@@ -387,6 +395,6 @@ pub fn replay(w: &Value) -> Vec<Finding> {
                 .collect()
         })
         .unwrap_or_default();
-    let c = BCase { n_pages: w["n_pages"].as_u64().unwrap_or(1) as usize, nodes, xref_stream: w["xref_stream"].as_bool().unwrap_or(false), reserved: w["reserved"].as_u64().unwrap_or(0) as u8 };
+    let c = BCase { n_pages: w["n_pages"].as_u64().unwrap_or(1) as usize, nodes, xref_stream: w["xref_stream"].as_bool().unwrap_or(false), reserved: w["reserved"].as_u64().unwrap_or(0) as u8, id_order: w["id_order"].as_u64().unwrap_or(0) as u8 };
     run_case(&c).map(|(s, what)| Finding { signature: format!("C17/{}", s), what, witness: w.clone() }).into_iter().collect()
 }
